@@ -1,6 +1,7 @@
 package main
 
 import (
+	"os"
 	"bufio"
 	"bytes"
 	"crypto/sha1"
@@ -137,6 +138,15 @@ func c15Pool(rng *rand.Rand, n int) [][]byte {
 			tw = sel
 		}
 		pool = append(pool, tw...)
+	}
+	// CRC-valid 1005 / 1006 frames that are too short to decode (the decode error is part of what is displayed)
+	for _, typ := range []int{1005, 1006} {
+		for _, plen := range []int{3, 10, 18, 20} {
+			if typ == 1005 && plen > 18 {
+				continue
+			}
+			add(gen.Frame(rng, typ, plen, 0))
+		}
 	}
 	n += len(pool)
 	for i := 0; len(pool) < n; i++ {
@@ -324,6 +334,40 @@ func c15(args []string) {
 		}(g)
 	}
 	wg.Wait()
+
+	// B2: Message.Copy: the copy displays like the original, belongs to whoever made it (writing into its bytes leaves the
+	// original alone) and making it leaves the original alone
+	for _, lv := range levels {
+		for i, f := range pool {
+			h := handler.New(start, lv)
+			m := safeGet(h, f)
+			if m == nil {
+				continue
+			}
+			before := append([]byte{}, m.RawData...)
+			var c handler.Message
+			if p := tr.Recover(func() { c = m.Copy() }); p != "" {
+				emit(c15Event{Key: key(i, lv), Scenario: "copy", Panic: p})
+				continue
+			}
+			// (Copy leaves out the log level and the time fields of an MSM - the lines the property excludes; they are carried over here so that
+			// the rest of the display can be compared line by line)
+			c.LogLevel, c.SentAt, c.StartOfWeek, c.Timestamp = m.LogLevel, m.SentAt, m.StartOfWeek, m.Timestamp
+			if !bytes.Equal(before, m.RawData) {
+				emit(c15Event{Key: key(i, lv), Scenario: "copy", Panic: "Copy changed the bytes of the message it copied"})
+				copy(m.RawData, before)
+			}
+			ce := observe(&c, key(i, lv), "copy")
+			if os.Getenv("VERIF_C15_DEBUG") != "" {
+				ce.Sample = stripTime(c.String())
+			}
+			emit(ce)
+			for k := range c.RawData {
+				c.RawData[k] ^= 0xff // the owner of the copy scribbles on it
+			}
+			emit(observe(m, key(i, lv), "original-after-copy-was-overwritten"))
+		}
+	}
 
 	// C2: frames that lie next to each other in ONE buffer of the caller (a file read in one go), taken out with the direct
 	// GetMessage path: decoding and displaying one of them must neither change what the next one is nor touch the buffer
